@@ -41,6 +41,11 @@ cols = [
     column("ld", "ld_pb", picture_bytes=48),
     column("frag", "frag"),
     column("frag", "frag2", fragment_slice_count=2),
+    # free-text names that differ only in punctuation (distinct names, distinct
+    # configurations: they must get distinct output directories)
+    column("minimal", "tw 4:4:4"),
+    column("minimal", "tw 4_4_4", picture_bytes=40),
+    column("minimal", "tw 4.4.4", picture_bytes=56),
 ]
 
 
